@@ -639,6 +639,83 @@ func jobC18(c *rt.Ctx) {
 		}
 		c.ClassN("SwapConditional", 2*len(B1ss))
 	}
+	// (5a) small constant multipliers (a24 = 121665 in the X25519 ladder, Z = 1, 2, 19, 38, powers of two):
+	// the other operand's limbs at the WRAP POINTS of the multiplier - floor(m * 2^w / k) and the value
+	// below it, for the machine word sizes w = 64 and 32 - with a maximal limb below it (largest carry
+	// coming in). A column product k * limb that lands within the incoming carry of a multiple of 2^w
+	// is where a word-wise shortcut for single-limb multipliers loses a carry.
+	c.Require("Mul/small-constant")
+	{
+		ks := []uint64{1, 2, 3, 19, 38, 121665, 121666, 486662, 1<<17 - 1}
+		for e := uint(10); e <= 20; e++ {
+			ks = append(ks, 1<<e)
+		}
+		for ki, k := range ks {
+			for li := 0; li < nLimbs; li++ {
+				if !c.Take() {
+					continue
+				}
+				c.Distinct(fmt.Sprintf("smallk %d %d", ki, li), true)
+				bound := 4 * limbMask(li) // up to the size a basic Sub output takes
+				var vals []uint64
+				for _, w := range []uint{64, 32} {
+					top := new(big.Int).Lsh(big.NewInt(1), w)
+					mmax := new(big.Int).Mul(new(big.Int).SetUint64(bound), new(big.Int).SetUint64(k))
+					mmax.Rsh(mmax, w)
+					mm := mmax.Uint64()
+					step := uint64(1)
+					if mm > 96 && !c.Thorough() {
+						step = mm / 96
+					}
+					for m := uint64(1); m <= mm && mm < 1<<22; m += step {
+						v := new(big.Int).Mul(new(big.Int).SetUint64(m), top)
+						v.Div(v, new(big.Int).SetUint64(k))
+						for j := uint64(0); j < 2; j++ {
+							if x := v.Uint64() - j; x <= bound && v.Uint64() >= j {
+								vals = append(vals, x)
+							}
+						}
+					}
+				}
+				vals = append(vals, limbMask(li), 2*limbMask(li), 2*limbMask(li)+1)
+				var kk elem
+				kl := make([]uint64, nLimbs)
+				kl[0] = k
+				kk = mk(kl, "K")
+				for _, v := range vals {
+					for lower := 0; lower < 3; lower++ {
+						l := make([]uint64, nLimbs)
+						l[li] = v
+						if li > 0 {
+							l[li-1] = []uint64{limbMask(li - 1), 2 * limbMask(li-1), 0}[lower]
+						} else if lower > 0 {
+							continue
+						}
+						if lower == 1 {
+							for i := range l {
+								if i != li && i != li-1 {
+									l[i] = limbMask(i)
+								}
+							}
+						}
+						a := mk(l, "W")
+						want := fmul(a.v, kk.v)
+						var o1, o2 Bignum25519
+						Mul(&o1, &a.x, &kk.x)
+						Mul(&o2, &kk.x, &a.x)
+						c.Step(2)
+						c.Class("Mul/small-constant")
+						if valueOf(&o1).Mod(valueOf(&o1), ref.P).Cmp(want) != 0 || !reducedBoundOK(&o1) {
+							report("Mul", &a, &kk, &o1, want, "wrong residue or limbs out of bound (limb at a wrap point of the constant)")
+						}
+						if valueOf(&o2).Mod(valueOf(&o2), ref.P).Cmp(want) != 0 || !reducedBoundOK(&o2) {
+							report("Mul", &kk, &a, &o2, want, "wrong residue or limbs out of bound (limb at a wrap point of the constant)")
+						}
+					}
+				}
+			}
+		}
+	}
 	// (5b) outputs are fully overwritten: same result into a zeroed and into a dirty output variable
 	c.Require("dirty-output")
 	var junk Bignum25519
